@@ -128,11 +128,15 @@ type ClientH struct {
 	States  map[string][]string
 	Errs    map[string][]string
 	Remotes map[string][]string
+	// Seen: what the application sees of the datatype (ToJSON) at the moment it is told "-> SUBSCRIBED"; recorded
+	// only when SeeOnSubscribe is set (explicit-state runs, where nothing else runs next to the handler)
+	Seen           map[string][]string
+	SeeOnSubscribe bool
 }
 
 // NewClient builds a real SDK client bound to the in-process service.
 func (s *System) NewClient(collection, alias string, syncType model.SyncType) *ClientH {
-	h := &ClientH{Name: alias, States: map[string][]string{}, Errs: map[string][]string{}, Remotes: map[string][]string{}}
+	h := &ClientH{Name: alias, States: map[string][]string{}, Errs: map[string][]string{}, Remotes: map[string][]string{}, Seen: map[string][]string{}}
 	h.Stub = &Stub{Svc: s.Svc, Sched: s.Sched, Name: alias, Down: func() bool { return s.DB.Dead() || s.Svc() == nil }}
 	conf := &orda.ClientConfig{ServerAddr: "fake", NotificationAddr: "fake", CollectionName: collection, SyncType: syncType}
 	h.C = orda.NewClientForVerif(conf, alias, h.Stub, s.Broker.NewClient(alias))
@@ -153,8 +157,16 @@ func (h *ClientH) Connect() error {
 func (h *ClientH) Handlers(key string) *orda.Handlers {
 	return orda.NewHandlers(
 		func(dt orda.Datatype, old, new model.StateOfDatatype) {
+			seen := ""
+			if h.SeeOnSubscribe && new == model.StateOfDatatype_SUBSCRIBED {
+				b, _ := json.Marshal(dt.ToJSON())
+				seen = string(b)
+			}
 			h.mu.Lock()
 			h.States[key] = append(h.States[key], fmt.Sprintf("%v->%v", old, new))
+			if seen != "" {
+				h.Seen[key] = append(h.Seen[key], seen)
+			}
 			h.mu.Unlock()
 		},
 		func(dt orda.Datatype, opList []interface{}) {
@@ -171,6 +183,9 @@ func (h *ClientH) Handlers(key string) *orda.Handlers {
 			h.mu.Unlock()
 		})
 }
+
+func (h *ClientH) Lock()   { h.mu.Lock() }
+func (h *ClientH) Unlock() { h.mu.Unlock() }
 
 // Events returns a copy of the recorded events of a key.
 func (h *ClientH) Events(key string) (states, errs, remotes []string) {
